@@ -24,7 +24,45 @@ func init() {
 	})
 }
 
+// checkUnregisterKeepsOtherRole: the muxer keeps one entry per protocol id holding both roles. Unregistering one role
+// (every server restarts itself on the peer's Done, Client.Stop unregisters too) must leave the other role reachable:
+// the per-id entry of protocolReceivers/protocolSenders is deleted only when its role map was found empty.
+func (c *Ctx) checkUnregisterKeepsOtherRole() {
+	n := 0
+	for _, fn := range c.pkgFuncs("muxer") {
+		for _, ci := range allCalls(fn) {
+			b, isB := ci.Common().Value.(*ssa.Builtin)
+			if !isB || b.Name() != "delete" || len(ci.Common().Args) != 2 {
+				continue
+			}
+			m := ci.Common().Args[0]
+			u, ok := m.(*ssa.UnOp)
+			if !ok {
+				continue
+			}
+			fa, ok := u.X.(*ssa.FieldAddr)
+			if !ok {
+				continue
+			}
+			fname := fieldName(fa.X.Type(), fa.Field)
+			if fname != "protocolReceivers" && fname != "protocolSenders" {
+				continue
+			}
+			n++
+			key := ssaFuncKey(fn) + ":delete(" + fname + ")"
+			v := c.mustPass(fn, []ssa.Instruction{ci.(ssa.Instruction)}, func(f string) bool {
+				return strings.HasPrefix(f, "len(") && (strings.HasSuffix(f, " == 0") || strings.HasSuffix(f, " <= 0") || strings.HasSuffix(f, " < 1")) && strings.Contains(f, "."+fname)
+			})
+			c.Check(v[0].OK, "unregister-keeps-other-role", key, ci.Pos(), "the per-protocol entry is dropped only once its role map is empty", "the whole "+fname+" entry of a protocol id is deleted without its role map having been found empty: unregistering or restarting one role of a mini-protocol removes the still-running opposite role from routing, and its next segment is answered with 'unknown protocol'")
+		}
+	}
+	if n == 0 {
+		c.Ok("unregister-keeps-other-role", "muxer:none", 0, "no code deletes a per-protocol entry of the muxer's routing tables (roles are removed one by one)")
+	}
+}
+
 func runC17(c *Ctx) {
+	c.checkUnregisterKeepsOtherRole()
 	// ---- (a) muxer direction guards
 	rl := c.SSAFunc("muxer", "Muxer.readLoop")
 	var sinks []ssa.Instruction
